@@ -175,12 +175,44 @@ static void generator_real(size_t m) {
     }
   }
 }
+// long knot vectors: all knots fixed (integers, every third one doubled) except a sliding run of three symbolic IEEE
+// doubles at positions pos..pos+2 - the relation of the run to its fixed neighbours is what the solver explores
+static void generator_f64_window(size_t m, size_t pos) {
+  auto &E = Engine::get();
+  E.logic = nullptr;
+  std::vector<F64> t;
+  for (size_t i = 0; i < m; i++) t.push_back(i >= pos && i < pos + 3 ? F64::var("t" + std::to_string(i)) : F64((long)(2 * i - (i % 3 == 2 ? 2 : 0))));
+  Bool nondecr = Bool::T(), distinct = Bool::F();
+  for (size_t i = 0; i + 1 < m; i++) {
+    nondecr = nondecr && sym::fle(t[i], t[i + 1]);
+    distinct = distinct || sym::flt(t[i], t[i + 1]);
+  }
+  expect("generator-f64-window", outcome([&] { bspline::BSplineGenerator<F64> gen(t); }), nondecr && distinct);
+}
+// long grids: every point fixed except a sliding run of two symbolic IEEE doubles (complements the fully symbolic sequences)
+static void grid_f64_window(size_t k, size_t pos, int ctor) {
+  auto &E = Engine::get();
+  E.logic = nullptr;
+  std::vector<F64> v;
+  for (size_t i = 0; i < k; i++) v.push_back(i >= pos && i < pos + 2 ? F64::var("v" + std::to_string(i)) : F64((long)(3 * i)));
+  Bool valid = Bool::T();
+  for (size_t i = 0; i + 1 < k; i++) valid = valid && sym::flt(v[i], v[i + 1]);
+  int got = outcome([&] {
+    if (ctor == 0) Grid<F64> g(v);
+    if (ctor == 1) Grid<F64> g(v.begin(), v.end());
+    if (ctor == 2) Grid<F64> g(std::make_shared<const std::vector<F64>>(v));
+  });
+  expect("grid-f64-window", got, valid);
+}
 // ---- linearCombination and interpolate argument checks
+#ifndef LCCOUNT
+#define LCCOUNT 3
+#endif
 static void lincomb_counts(size_t n) {
   auto g = gridvars(n);
   Grid<Real> grid(g);
-  for (size_t nc = 0; nc <= 3; nc++)
-    for (size_t ns = 0; ns <= 3; ns++) {
+  for (size_t nc = 0; nc <= LCCOUNT; nc++)
+    for (size_t ns = 0; ns <= LCCOUNT; ns++) {
       std::vector<Real> C;
       std::vector<Spline<Real, 1>> S;
       for (size_t i = 0; i < nc; i++) C.push_back(Real::var("k" + std::to_string(i)));
@@ -253,6 +285,21 @@ void hx_cases(std::vector<Case> &cases) {
     cases.push_back({"generator-real/p2/m" + std::to_string(m), [=] { generator_real<2>(m); }});
     cases.push_back({"generator-real/p3/m" + std::to_string(m), [=] { generator_real<3>(m); }});
   }
+#ifdef LARGEK
+  // long sequences: fully symbolic grids of 6..LARGEK elements (one path per position of the first violation), sliding symbolic
+  // runs in long fixed grids / knot vectors, large grids for the index-window, coefficient-count and interpolation-size checks
+  for (size_t k = MAXK + 1; k <= LARGEK; k++) {
+    for (int ctor = 0; ctor < 3; ctor++) cases.push_back({"grid-f64/k" + std::to_string(k) + "/ctor" + std::to_string(ctor), [=] { grid_f64(k, ctor); }});
+    cases.push_back({"grid-real/k" + std::to_string(k), [=] { grid_real(k); }});
+  }
+  for (size_t k = MAXK; k <= 9; k++) cases.push_back({"grid-f32-from-f64/k" + std::to_string(k), [=] { grid_f32_from_f64(k); }});
+  for (size_t k : {(size_t)LARGEK, (size_t)LARGEK + 8})
+    for (size_t pos = 0; pos + 2 <= k; pos++) cases.push_back({"grid-f64-window/k" + std::to_string(k) + "/pos" + std::to_string(pos), [=] { grid_f64_window(k, pos, (int)(pos % 3)); }});
+  for (size_t m : {(size_t)LARGEK - 4, (size_t)LARGEK})
+    for (size_t pos = 0; pos + 3 <= m; pos++) cases.push_back({"generator-f64-window/m" + std::to_string(m) + "/pos" + std::to_string(pos), [=] { generator_f64_window(m, pos); }});
+  cases.push_back({"support-spline/n" + std::to_string(LARGEK), [=] { support_spline(LARGEK); }});
+  cases.push_back({"interpolate-args/o2/n" + std::to_string(LARGEK - 4), [=] { interp_args<2>(LARGEK - 4); }});
+#endif
   for (size_t n = 2; n <= 3; n++) cases.push_back({"lincomb-counts/n" + std::to_string(n), [=] { lincomb_counts(n); }});
   for (size_t n = 2; n <= MAXN; n++) {
     cases.push_back({"interpolate-args/o1/n" + std::to_string(n), [=] { interp_args<1>(n); }});
